@@ -87,5 +87,33 @@ def direct(rep, t, rnd):
         print(f"NOTE: {more} further failing batches not itemised")
 
 
+def cli_strict(rep, t, rnd):
+    """strict mode through the command: --mode 0 runs on generated stylesheets (rules nested in at-rules included);
+    TrCli.tla's C04_CliStrictCap judges every adjusted rule"""
+    import clichecks
+    jobs = []
+    for k in range(40 if t == "quick" else 800):
+        kw = dict(nrules=rnd.choice([3, 6, 10]), depth=rnd.choice([1, 2, 3]), f_known=0.0, carry=False, nvars=rnd.choice([0, 2]))
+        jobs.append((rnd.randrange(1 << 30), (0, bool(k & 1), rnd.choice([None, "#000000", "white"])), kw))
+    res = vlib.pool_map(clichecks.one_sheet, jobs, chunksize=2)
+    behs = [b for b, _ in res]
+    agg = vlib.validate_traces("TrCli", behs, min_per_shard=10)
+    rep.add_traces(agg, len(behs))
+    ncards = sum(1 for b in behs for e in b[1:] if e["cat"] == "card")
+    rep.evaluations += ncards
+    rep.extra["cli_mode0_adjusted_rules"] = ncards
+    for bad in agg["bad"]:
+        mine = [f for f in bad["fails"] if f.startswith("C04_")]
+        if mine:
+            info = res[bad["tid"]][1]
+            rep.violation("/".join(mine), {"stylesheet": info["css"], "args": info["args"], "rule_events": behs[bad["tid"]][1:],
+                          "reproduce": "write `stylesheet` to s.css and run: cm-colors s.css " + " ".join(info["args"])})
+
+
+def both(rep, t, rnd):
+    direct(rep, t, rnd)
+    cli_strict(rep, t, rnd)
+
+
 if __name__ == "__main__":
-    vlib.main_wrapper(lambda: pairchecks.run("C04", extra=direct))
+    vlib.main_wrapper(lambda: pairchecks.run("C04", extra=both))
